@@ -96,8 +96,40 @@ func renderObsProcs(sc *Scenario, meta *c20Meta) {
 					q = fmt.Sprintf("DELETE FROM priv%d WHERE id IN (SELECT id + 5000 FROM %s);", p, t)
 				case 17:
 					q = fmt.Sprintf("CREATE TABLE `made%d_%d.csv` (id, n) AS SELECT id, n FROM %s;", p, i, t)
+				case 18:
+					// reads issued by statements that run other statements
+					q = fmt.Sprintf("EXECUTE 'SELECT COUNT(*) FROM %s';", t)
+				case 19:
+					q = fmt.Sprintf("SOURCE `rd_%s.sql`;", t)
 				default:
 					q = fmt.Sprintf("SELECT COUNT(*) FROM `./%s.csv`;", t)
+				}
+				s = append(s, fmt.Sprintf("ECHO '@U %d';", i), q)
+			case "pass":
+				// statements that touch no table: for the model nothing happens (in particular the
+				// transaction neither ends nor forgets what it has loaded)
+				var q string
+				switch op.Form {
+				case 0:
+					q = "EXECUTE 'PRINT 1';"
+				case 1:
+					q = "SOURCE `pass.sql`;"
+				case 2:
+					q = "EXECUTE 'PRINT %s; PRINT 2;' USING 5;"
+				case 3:
+					q = fmt.Sprintf("PREPARE pp%d FROM 'PRINT 1'; EXECUTE pp%d; DISPOSE PREPARE pp%d;", i, i, i)
+				case 4:
+					q = "IF TRUE THEN PRINT 2; END IF; WHILE FALSE DO PRINT 3; END WHILE;"
+				case 5:
+					q = fmt.Sprintf("DECLARE pf%d FUNCTION () AS BEGIN RETURN 1; END; PRINT pf%d(); DISPOSE FUNCTION pf%d;", i, i, i)
+				case 6:
+					q = "SET @@LIMIT_RECURSION TO 100; SHOW @@LIMIT_RECURSION;"
+				case 7:
+					q = "SELECT 1 + 1; SELECT 2 FROM DUAL;"
+				case 8:
+					q = "EXECUTE 'SOURCE `pass.sql`';"
+				default:
+					q = "PRINTF '%s' USING 1; ECHO 'x';"
 				}
 				s = append(s, fmt.Sprintf("ECHO '@U %d';", i), q)
 			case "selfu":
@@ -156,6 +188,10 @@ func (c20) Gen(seed uint64, tier string) *Scenario {
 		sc.Files = append(sc.Files, FileSpec{Name: tableName(i) + ".csv", Content: counterTable(rows)})
 	}
 	sc.Files = append(sc.Files, FileSpec{Name: "one.csv", Content: "k\n1\n"}) // first table of the join form of FOR UPDATE
+	sc.Files = append(sc.Files, FileSpec{Name: "pass.sql", Content: "PRINT 'sourced';\n"})
+	for i := 0; i < ntab; i++ {
+		sc.Files = append(sc.Files, FileSpec{Name: fmt.Sprintf("rd_t%d.sql", i), Content: fmt.Sprintf("SELECT COUNT(*) FROM t%d;\n", i)})
+	}
 	nobs := r.Pick(1, 1, 2)
 	nwr := r.Range(1, 2)
 	for p := 0; p < nobs; p++ {
@@ -191,12 +227,14 @@ func (c20) Gen(seed uint64, tier string) *Scenario {
 					}
 					continue
 				}
-				switch r.Intn(10) {
+				switch r.Intn(11) {
+				case 10:
+					ops = append(ops, ObsOp{Kind: "pass", Form: r.Intn(10)})
 				case 0, 1, 2:
 					ops = append(ops, ObsOp{Kind: "sel", Table: tb, Form: r.Pick(0, 0, 0, 1, 2, 3, 4)})
 				case 3:
 					if r.Bool(0.7) {
-						ops = append(ops, ObsOp{Kind: "touch", Table: tb, Form: r.Pick(0, 1, 2, 3, 4, 5, 6, 7, 8, 9, 10, 11, 12, 13, 14, 15, 16, 17, 13, 14)})
+						ops = append(ops, ObsOp{Kind: "touch", Table: tb, Form: r.Pick(0, 1, 2, 3, 4, 5, 6, 7, 8, 9, 10, 11, 12, 13, 14, 15, 16, 17, 13, 14, 18, 19)})
 					} else {
 						ops = append(ops, ObsOp{Kind: "noop", Table: tb, Form: r.Intn(2)})
 					}
@@ -240,6 +278,13 @@ func (c20) Gen(seed uint64, tier string) *Scenario {
 	}
 	renderObsProcs(sc, meta)
 	sc.Knobs = Knobs{RowStride: r.Pick(1, 4, 64), Pool: "lifo"}
+	for _, p := range sc.Procs {
+		if strings.Contains(p.Program, "SOURCE `") {
+			// SOURCE resolves its file relative to the working directory: these scenarios
+			// run without --repository, inside the run directory
+			sc.Knobs.RelRepo = true
+		}
+	}
 	sc.Sched = GenSched(seed, len(sc.Procs), 150*len(sc.Procs))
 	sc.MaxSteps = 40000
 	return sc
